@@ -907,5 +907,11 @@ def install_futures(s):
         inner = En(RES, Ite(has, ZERO, ONE), {0: St(None, {0: payload(val, 1)}), 1: St(None, {0: St('Canceled', {})})})
         return En(POLL, Ite(Or(has, txd), ZERO, ONE), {0: St(None, {0: inner})})
     s.table[('nat', 'Future', 'OneReceiver', 'poll')] = None
+    # futures::future::ready(v): a future that is Ready(v) at its first poll
+    R('future::ready', lambda m, th, a, g: St('ReadyFut', {0: a[0]}))
+    def ready_poll(m, th, a, g):
+        v = m.load(a[0], g)
+        return Ready(v.f.get(0)) if isinstance(v, St) else POISON
+    s.table[('nat', 'Future', 'ReadyFut', 'poll')] = FnNative('Future::poll<ReadyFut>', ready_poll, False, None)
     R('__oneshot_poll', one_poll, visible=True)
 Natives.install_futures = install_futures
